@@ -76,6 +76,15 @@ partial def termToGo : Term → GoVal
       (b "b_name", .ptr (some (.str (b "Bo")))),
       (b "c_first", .ptr (some (.int 7))),
       (b "d_all", .ptr (some (.slice [.int 7, .int 8])))]
+  | .list [.atom "NT", .atom "7"] =>
+    .struct [(b "EmbBase", true, .struct [(b "ID", true, .int 1), (b "Tag", true, .str (b "t"))]), (b "Name", true, .str (b "n"))]
+  | .list [.atom "NT", .atom "8"] =>
+    .struct [(b "embInner", false, .struct [(b "Secret", true, .str (b "s")), (b "Pub", true, .int 2)]), (b "Name", true, .str (b "w"))]
+  | .list [.atom "NT", .atom "9"] =>
+    .struct [(b "embInner", false, .ptr none), (b "EmbBase", true, .ptr none), (b "Name", true, .str (b "w2"))]
+  | .list [.atom "NT", .atom "10"] =>
+    .ptr (some (.struct [(b "embInner", false, .ptr (some (.struct [(b "Secret", true, .str (b "s")), (b "Pub", true, .int 3)]))),
+      (b "EmbBase", true, .ptr (some (.struct [(b "ID", true, .int 4), (b "Tag", true, .str (b "u"))]))), (b "Name", true, .str (b "w3"))]))
   | .list [.atom "NT", .atom _] => .struct []
   | _ => .other "?"
 where
@@ -138,6 +147,8 @@ where
     | .list [.atom p, .atom "f", .atom c] :: r => (cleanPath (hexOf p), Entry.file (hexOf c)) :: go r
     | .list [.atom p, .atom "d"] :: r => (cleanPath (hexOf p), Entry.dir) :: go r
     | .list [.atom p, .atom "x"] :: r => (cleanPath (hexOf p), Entry.badlink) :: go r
+    -- a symbolic link to a regular file: reads like the file (the harness writes the link, the content is the target's)
+    | .list [.atom p, .atom "l", .atom _, .atom c] :: r => (cleanPath (hexOf p), Entry.file (hexOf c)) :: go r
     | _ => []
 
 def vtypeOf : String → VType
